@@ -40,14 +40,16 @@ VARIABLES sc, ph, annSeen, fnAnnSeen, ignSeen, diags
 
 vars == <<sc, ph, annSeen, fnAnnSeen, ignSeen, diags>>
 
-Classes == {"sibling", "test", "xtest", "tdpath", "genpath", "genfile", "genfirst", "gentest", "testdecl"}
+Classes == {"sibling", "test", "xtest", "tdpath", "genpath", "genfile", "genfirst", "gentest", "testdecl", "linehdr"}
+\* linehdr: X is p/b.go on disk and starts with `//line zzGen/b.go:1` (what cgo and generators emit): its name, for exclusion and for
+\* the positions of its diagnostics alike, is the one the directive gives (deviation PhysicalName: the name on disk is matched)
 \* testdecl: X is an in-package _test.go file that declares the annotated XT; an external test file of the same directory mutates it (A2t).
 \* exclude-paths entries are case-sensitive substrings: the directory / file-name token of the scenarios is spelled zzGen
 PathSets == {{}, {"testdata"}, {"zzGen"}, {"testdata", "zzGen"}, {"zzGen", "zzGenerated"}, {"zzGenerated"}, {"zzGen/q"}}
 \* zzGen/q spans the boundary between a directory and a file name: it matches zzGen/q.go (class genpath) only
 \* zzGenerated matches no file of the scenarios; next to zzGen it is a longer entry that *contains* the shorter one
 
-Valid(s) == /\ (s.ann => s.cls \in {"sibling", "tdpath", "genpath", "genfile", "genfirst", "testdecl"})
+Valid(s) == /\ (s.ann => s.cls \in {"sibling", "tdpath", "genpath", "genfile", "genfirst", "testdecl", "linehdr"})
             /\ (s.cls = "testdecl" => s.ann /\ ~s.viol /\ ~s.ign)
             /\ (s.cls = "sibling" => TRUE)
 
@@ -57,11 +59,14 @@ Init == /\ sc \in {s \in [cls : Classes, ann : BOOLEAN, viol : BOOLEAN, ign : BO
 IsTest(cls) == cls \in {"test", "xtest", "gentest", "testdecl"}
 Skip == \/ IsTest(sc.cls) /\ ~sc.scan
         \/ sc.cls = "tdpath" /\ "testdata" \in sc.paths
-        \/ sc.cls \in {"genpath", "genfile", "genfirst", "gentest"} /\ "zzGen" \in sc.paths
+        \/ sc.cls \in {"genpath", "genfile", "genfirst", "gentest", "linehdr"} /\ "zzGen" \in sc.paths
         \/ sc.cls = "genpath" /\ "zzGen/q" \in sc.paths
 
 (* L1 *)
-Expected == {"A1", "A4"}
+\* A5: a.go's type Box claims d.I; the only method M of Box has another signature and is declared in file X (when X belongs to
+\* package p at all). The finding is anchored at the type, in a.go, wherever the method is (deviation ImplAtMethod: at the method).
+InPkg == sc.cls \notin {"tdpath", "genpath", "xtest"}
+Expected == {"A1", "A4", "A5"}
             \cup (IF sc.ann /\ ~Skip THEN (IF sc.cls = "testdecl" THEN {"A2t"} ELSE {"A2", "A3"}) ELSE {})
             \cup (IF sc.viol /\ ~Skip /\ ~sc.ign THEN {"X1"} ELSE {})
             \cup (IF sc.viol /\ ~Skip /\ ~sc.ign /\ ~IsTest(sc.cls) THEN {"X2", "X3"} ELSE {})
@@ -71,6 +76,7 @@ Expected == {"A1", "A4"}
 \* for the classes tdpath / genpath X is the only file of its package, for the others a.go comes first)
 Filtered(reader) ==
   IF reader \in Deviations THEN FALSE
+  ELSE IF "PhysicalName" \in Deviations /\ sc.cls = "linehdr" THEN FALSE
   ELSE IF "FirstFile" \in Deviations /\ sc.cls = "genfile" THEN FALSE     \* a.go comes first and is not excluded
   ELSE IF "TestSuffixFirst" \in Deviations /\ IsTest(sc.cls) THEN ~sc.scan \* the _test.go suffix is looked at before exclude-paths
   ELSE Skip
@@ -91,6 +97,7 @@ ReadIgnores ==
 Check ==
   /\ ph = "check"
   /\ diags' = {"A1"}
+              \cup (IF "ImplAtMethod" \in Deviations /\ InPkg THEN {"A5x"} ELSE {"A5"})
               \cup (IF "PkgWideImports" \in Deviations /\ sc.cls \notin {"tdpath", "genpath", "xtest"} THEN {"A4w"} ELSE {"A4"})
               \* FactsWithoutTestAnns: what a test file declares is left out of the exported fact (the external test package sees nothing)
               \cup (IF annSeen /\ sc.cls = "testdecl" /\ ~("FactsWithoutTestAnns" \in Deviations) THEN {"A2t"} ELSE {})
@@ -111,9 +118,9 @@ Termination == <>Done
 
 Exact == Done => diags = Expected
 \* (1) no diagnostic is located in a skipped file
-NoneInSkipped == (Done /\ Skip) => diags \cap {"X1", "X2", "X3"} = {}
+NoneInSkipped == (Done /\ Skip) => diags \cap {"X1", "X2", "X3", "A5x"} = {}
 \* (2) what a skipped file contains does not influence the other files
-Inert == (Done /\ Skip) => diags = {"A1", "A4"}
+Inert == (Done /\ Skip) => diags = {"A1", "A4", "A5"}
 \* (3) test files never receive TONL diagnostics, but everything else when scan-tests is on
 TestFiles == (Done /\ IsTest(sc.cls)) => /\ "X2" \notin diags /\ "X3" \notin diags /\ "A3" \notin diags
                                           /\ (sc.scan /\ ~Skip /\ sc.viol /\ ~sc.ign => "X1" \in diags)
